@@ -24,6 +24,7 @@ From Coq Require Import ZArith List Bool Reals Lra Permutation.
 From Coquelicot Require Import Coquelicot.
 From BZ Require Import Base.Ops Gen.Point Gen.Affine Gen.Line Gen.Quad Gen.Cubic Hand.Shoelace Proofs.C10 Proofs.C10pos Proofs.C10shapes Hand.Shapes Gen.Shapes Proofs.Bridge Proofs.C10float Base.FloatErr Proofs.C01float.
 Import ListNotations.
+From BZ Require Proofs.C16space.
 From BZ Require Gen.PathOps Proofs.Bridge5.
 From BZ Require Hand.Sample Proofs.C04 Proofs.C16 Proofs.C17 Proofs.C10flat Proofs.C10flat2.
 Open Scope R_scope.
@@ -305,6 +306,12 @@ Proof. exact @Bridge5.Path_direction_gen. Qed.
 Theorem C10_signed_area_hand :
   forall (T : Type) (O : Ops T), Bridge2.lit_ok O -> forall (cap : nat) (segs : list (segment T * option (segment T))) (closed : bool) (fuel : nat) (k : list (seg2 T) -> T), eqb O (ofZ O 8) (Sample.zero O) = false -> List.Forall (Bridge5.flatten_ok O cap fuel (ofZ O 8)) segs -> Bridge2.res_of (Bridge5.after_flatten O fuel (segs, closed) k) = Sample.bind (Sample.path_flatten O cap segs closed (ofZ O 8)) (fun f : list Sample.edge * bool => Sample.Ok (k (Bridge5.lines_of f))).
 Proof. exact @Bridge5.signed_area_hand. Qed.
+Theorem C10_gentle_cubic_flatten_area_error :
+  forall (s : seg4 R) (m M : R), 0 < m -> (forall u : R, 0 <= u <= 1 -> m <= C04.cubic_speed s u <= M) -> M <= 2 * m -> forall (cap : nat) (d : R) (es : list Sample.edge), 0 < d -> Sample.Cubic_flatten ROps cap s d = Sample.Ok es -> Rabs (Cubic_area ROps s - sum_line_areas (map fst es)) <= (d * (1 + 3 / 10 ^ 4) + 2001 / 1000 + 4 / 10 ^ 4 * C10flat.cubic_arclen s 0 1) / 4 * C10flat.cubic_arclen s 0 1.
+Proof. exact @C16space.gentle_cubic_flatten_area_error. Qed.
+Theorem C10_gentle_cubic_flatten_area_error_10 :
+  forall (s : seg4 R) (m M : R), 0 < m -> (forall u : R, 0 <= u <= 1 -> m <= C04.cubic_speed s u <= M) -> M <= 2 * m -> forall (cap : nat) (d : R) (es : list Sample.edge), 0 < d <= 8 -> C10flat.cubic_arclen s 0 1 <= 70000 -> Sample.Cubic_flatten ROps cap s d = Sample.Ok es -> Rabs (Cubic_area ROps s - sum_line_areas (map fst es)) <= 10 * C10flat.cubic_arclen s 0 1.
+Proof. exact @C16space.gentle_cubic_flatten_area_error_10. Qed.
 
 Print Assumptions C10_area_is_integral_line.
 Print Assumptions C10_area_is_integral_quad.
@@ -398,3 +405,5 @@ Print Assumptions C10_Path_signed_area_gen.
 Print Assumptions C10_Path_area_gen.
 Print Assumptions C10_Path_direction_gen.
 Print Assumptions C10_signed_area_hand.
+Print Assumptions C10_gentle_cubic_flatten_area_error.
+Print Assumptions C10_gentle_cubic_flatten_area_error_10.
